@@ -33,6 +33,9 @@ pub open spec fn leh_guess_post(X: int, Y: int, a: int, b: int, c: int, d: int, 
     &&& d * Y - c * X >= c
     &&& (b > 0 ==> a * X - b * Y + a <= Y)
     &&& (c > 0 ==> d * Y - c * X + d <= Y)
+    // parity of the accepted half steps: either the second row was updated last (c >= a, d >= b: its cofactors are the larger
+    // ones) or the first row was, under Jebelean's exact condition (then a x - b y < d y - c x for every such pair: lemma_leh_order)
+    &&& (b == 0 || (c >= a && d >= b) || a * X - b * Y + a <= d * Y - c * X - c)
 }
 
 pub proof fn lemma_leh_st_init(X: int, Y: int)
@@ -105,16 +108,19 @@ pub proof fn lemma_leh_half(X: int, Y: int, a: int, b: int, c: int, d: int, x: i
 /// the column order kept by the half steps (second column minus first column): at the loop top d > c and b + 1 >= a,
 /// between the two half steps d > c and b >= a
 pub proof fn lemma_leh_cols1(a: int, b: int, c: int, d: int, q: int)
-    requires q >= 1, d > c, b + 1 >= a, c >= 0, b >= 0,
-    ensures b + q * d >= a + q * c, b + q * d >= d,
+    requires q >= 1, d > c, b + 1 >= a, c >= 0, b >= 0, a >= 0,
+    ensures b + q * d >= a + q * c, b + q * d >= d, a + q * c >= c,
 {
+    assert(q * c >= c) by (nonlinear_arith) requires q >= 1, c >= 0;
     assert(q * d - q * c >= 1) by (nonlinear_arith) requires q >= 1, d - c >= 1;
     assert(q * d >= d) by (nonlinear_arith) requires q >= 1, d >= 0;
 }
 pub proof fn lemma_leh_cols2(a: int, b: int, c: int, d: int, q: int)
-    requires q >= 0, d > c, b >= a,
-    ensures d + q * b > c + q * a,
+    requires q >= 1, d > c, b >= a, a >= 0, c >= 0,
+    ensures d + q * b > c + q * a, c + q * a >= a, d + q * b >= b,
 {
+    assert(q * a >= a) by (nonlinear_arith) requires q >= 1, a >= 0;
+    assert(q * b >= b) by (nonlinear_arith) requires q >= 1, b >= 0;
     assert(q * b - q * a >= 0) by (nonlinear_arith) requires q >= 0, b - a >= 0;
 }
 
@@ -139,6 +145,7 @@ pub proof fn lemma_leh_guess_fin(X: int, Y: int, a: int, b: int, c: int, d: int,
         c == 0 ==> d == 1,
         b > 0 ==> x + a <= Y,
         c > 0 ==> y + d <= Y,
+        b == 0 || (c >= a && d >= b) || x + a <= y - c,
     ensures leh_guess_post(X, Y, a, b, c, d, lim),
 {
 }
@@ -197,4 +204,45 @@ pub proof fn lemma_leh_apply(x: int, y: int, X: int, Y: int, k: int, a: int, b: 
         requires xn == a * x - b * y, yn == d * y - c * x;
     assert((a * d - b * c) * x == x) by (nonlinear_arith) requires a * d - b * c == 1;
     assert((a * d - b * c) * y == y) by (nonlinear_arith) requires a * d - b * c == 1;
+}
+
+/// first row updated last under Jebelean's condition:  a*X - b*Y + a <= d*Y - c*X - c   ==>   a x - b y < d y - c x
+pub proof fn lemma_leh_order(x: int, y: int, X: int, Y: int, k: int, a: int, b: int, c: int, d: int)
+    requires leh_top(x, y, X, Y, k), a >= 1, b >= 0, c >= 0, d >= 1, a * X - b * Y + a <= d * Y - c * X - c,
+    ensures a * x - b * y < d * y - c * x,
+{
+    let xl = x - X * k; let yl = y - Y * k;
+    assert((X + 1) * k == X * k + k) by (nonlinear_arith);
+    assert((Y + 1) * k == Y * k + k) by (nonlinear_arith);
+    let xb = a * X - b * Y; let yb = d * Y - c * X;
+    let xn = a * x - b * y; let yn = d * y - c * x;
+    assert(xn == xb * k + (a * xl - b * yl)) by (nonlinear_arith)
+        requires xn == a * x - b * y, xb == a * X - b * Y, xl == x - X * k, yl == y - Y * k;
+    assert(yn == yb * k + (d * yl - c * xl)) by (nonlinear_arith)
+        requires yn == d * y - c * x, yb == d * Y - c * X, xl == x - X * k, yl == y - Y * k;
+    assert(a * xl <= a * k - a) by (nonlinear_arith) requires a >= 1, xl <= k - 1;
+    assert(b * yl >= 0) by (nonlinear_arith) requires b >= 0, yl >= 0;
+    assert(d * yl >= 0) by (nonlinear_arith) requires d >= 1, yl >= 0;
+    assert(c * xl <= c * k - c) by (nonlinear_arith) requires c >= 0, xl <= k - 1;
+    assert((xb + a) * k <= (yb - c) * k) by (nonlinear_arith) requires xb + a <= yb - c, k >= 1;
+    assert((xb + a) * k == xb * k + a * k) by (nonlinear_arith);
+    assert((yb - c) * k == yb * k - c * k) by (nonlinear_arith);
+}
+
+/// EXACT form of the parity clause (Jebelean's condition for BOTH rows): the row updated last satisfies
+///   second row last:  c >= a, d >= b, d*Y - c*X + d <= a*X - b*Y - b      first row last:  a >= c, b >= d, a*X - b*Y + a <= d*Y - c*X - c
+/// which makes (a x - b y, d y - c x) two CONSECUTIVE remainders of Euclid's algorithm on every (x, y) with these leading parts
+/// (second row last: d y - c x < a x - b y, lemma_leh_order2; first row last: the reverse, lemma_leh_order); gcd_ext_in_place relies
+/// on it: after its `if x <= y { swap }` the cofactor t1 must be the larger one.
+/// The unchanged lehmer.rs (`t + r > xbar - c` in the second half step, should be `xbar - b`) does NOT satisfy this.
+pub open spec fn leh_guess_exact(X: int, Y: int, a: int, b: int, c: int, d: int) -> bool {
+    b == 0 || (c >= a && d >= b && d * Y - c * X + d <= a * X - b * Y - b)
+        || (a >= c && b >= d && a * X - b * Y + a <= d * Y - c * X - c)
+}
+
+pub proof fn lemma_leh_order2(x: int, y: int, X: int, Y: int, k: int, a: int, b: int, c: int, d: int)
+    requires leh_top(x, y, X, Y, k), a >= 1, b >= 0, c >= 0, d >= 1, d * Y - c * X + d <= a * X - b * Y - b,
+    ensures d * y - c * x < a * x - b * y,
+{
+    lemma_leh_order(y, x, Y, X, k, d, c, b, a);
 }
